@@ -44,6 +44,16 @@ def pretty_carrier(v, ctx):
             kw = collections.OrderedDict(kw)
         elif v.kwform == 'dict':
             kw = dict(kw)
+        elif v.kwform == 'zip':        # one-shot iterators: what pretty_namedtuple itself passes
+            kw = zip([k for k, _ in kw], [x for _, x in kw])
+        elif v.kwform == 'gen':
+            kw = ((k, x) for k, x in list(kw))
+        elif v.kwform == 'iter':
+            kw = iter(list(kw))
+        elif v.kwform == 'items':
+            kw = collections.OrderedDict(kw).items()
+        elif v.kwform == 'tuple':
+            kw = tuple(kw)
         return P.pretty_call_alt(ctx, v.fn, args=tuple(v.args), kwargs=kw)
     return P.pretty_call(ctx, v.fn, *v.args, **dict(v.kwargs))
 
@@ -75,7 +85,7 @@ def call_shape(chk):
         names = rng.sample(['alpha', 'b', 'key', 'zz', 'a1'], nk)
         kwargs = [(n, rng.choice(ARGS)) for n in names]
         alt = rng.random() < 0.6
-        kwform = rng.choice(['pairs', 'od', 'dict'])
+        kwform = rng.choice(['pairs', 'od', 'dict', 'zip', 'gen', 'iter', 'items', 'tuple'])
         com = {}
         cargs = list(args)
         if args and rng.random() < 0.2:
